@@ -162,7 +162,7 @@ def run_case(case: dict) -> dict:
         if case["trace"] and log_path.is_file():
             obs["traced_runs"] += 1
             written: dict = {}
-            for pid, call, paths, ret in strace_log.parse(log_path):
+            for pid, call, paths, ret, args in strace_log.parse(log_path, with_args=True):
                 if ret.startswith("-1"):
                     continue
                 for path in paths:
@@ -170,6 +170,8 @@ def run_case(case: dict) -> dict:
                         continue
                     if call in ("rename", "renameat", "renameat2", "mkdir", "mkdirat", "creat", "unlink", "unlinkat"):
                         written.setdefault(path, set()).add((pid, call))
+                    elif call in ("open", "openat") and any(f in args for f in ("O_WRONLY", "O_RDWR", "O_CREAT", "O_TRUNC")):
+                        written.setdefault(path, set()).add((pid, "open-for-writing"))
             worker_pids = set(pids)
             for path, users in written.items():
                 worker_users = {pid for pid, call in users if pid in worker_pids and not call.startswith("mkdir")}
@@ -177,9 +179,7 @@ def run_case(case: dict) -> dict:
                     violations.append({"key": "path-written-by-two-worker-processes",
                                        "msg": f"{label}: {path.replace(str(root_par), '<root>')} written by pids {sorted(worker_users)}"})
             obs["paths_traced"] += len(written)
-            # opens for writing
-            for pid, call, paths, ret in strace_log.parse(log_path):
-                pass
+            obs["opens_for_writing_traced"] += sum(1 for users in written.values() for _, c in users if c == "open-for-writing")
         active = sum(1 for w in case["writers"] if w)
         return finish(case, violations, obs, interleaving=interleaving, nontrivial=active >= 2)
     finally:
